@@ -1252,6 +1252,126 @@ def gen_ndl_cert():
     write_if_changed("NdlCert.lean", "\n".join(lines))
 
 
+def gen_router_cert():
+    """C16: TTL handling of `ArpRouter::demux` translated statement by statement into a Lean
+    kernel, structural facts about the forwarding path (one send site, no loop, lookup by
+    destination, next hop = gateway or destination, ARP on the outgoing slot), the default TTL of
+    `Ipv4HeaderBuilder::new`, header constants and the ARP retry budget.  Fails closed."""
+    path = os.path.join(ELVIS, "applications", "arp_router.rs")
+    src = strip_comments(read(path))
+    m = re.search(r"impl\s+Protocol\s+for\s+ArpRouter\s*\{", src)
+    if not m:
+        raise ExtractError("arp_router.rs: impl Protocol for ArpRouter not found")
+    impl = fn_body(src, m.end() - 1)
+    dm = re.search(r"fn\s+demux\s*\(", impl)
+    if not dm:
+        raise ExtractError("arp_router.rs: fn demux not found")
+    body = fn_body(impl, impl.index("DemuxError>", dm.end()))
+    flat = re.sub(r"\s+", " ", body)
+    # the header copy that is modified and re-serialised (any variable name)
+    mh = re.search(r"let mut (\w+) = \*control\.get::<Ipv4Header>\(\)\.ok_or\(DemuxError::Other\)\?;", flat)
+    if not mh:
+        raise ExtractError("arp_router.rs: demux no longer copies the Ipv4Header out of the control block in the recognised form")
+    var = mh.group(1)
+    ser = flat.find(var + ".serialize()", mh.end())
+    if ser < 0:
+        raise ExtractError("arp_router.rs: demux no longer re-serialises the header")
+    # the TTL zone ends where the statement containing `.serialize()` starts
+    zone_end = max(flat.rfind(";", mh.end() - 1, ser), flat.rfind("}", mh.end() - 1, ser)) + 1
+    ttl_part = flat[mh.end():zone_end].strip()
+    V = re.escape(var)
+    # statement grammar of the TTL handling
+    stmts = []
+    rest = ttl_part
+    while rest:
+        m0 = re.match(r"tracing::\w+!\([^;]*\); ?", rest)
+        m1 = re.match(V + r"\.time_to_live -= (\d+); ?", rest) or re.match(V + r"\.time_to_live = " + V + r"\.time_to_live - (\d+); ?", rest)
+        m2 = re.match(r"if " + V + r"\.time_to_live (==|<=|<) (\d+) \{ (?:tracing::\w+!\([^;]*\); )?return Ok\(\(\)\); \} ?", rest)
+        m3 = re.match(V + r"\.time_to_live = " + V + r"\.time_to_live\.(saturating_sub|wrapping_sub)\((\d+)\); ?", rest)
+        if m0:
+            rest = rest[m0.end():]
+        elif m1:
+            stmts.append(("sub", int(m1.group(1))))
+            rest = rest[m1.end():]
+        elif m2:
+            stmts.append(("drop", m2.group(1), int(m2.group(2))))
+            rest = rest[m2.end():]
+        elif m3:
+            stmts.append((m3.group(1), int(m3.group(2))))
+            rest = rest[m3.end():]
+        else:
+            raise ExtractError("arp_router.rs: TTL handling of ArpRouter::demux is outside the translatable statement grammar: `%s`" % rest[:120])
+    lean_lines = []
+    for st in stmts:
+        if st[0] == "sub":
+            lean_lines.append(f'  if ttl < {st[1]} then .error "panic:sub:ArpRouter::demux:time_to_live" else')
+            lean_lines.append(f"  let ttl := ttl - {st[1]}")
+        elif st[0] == "saturating_sub":
+            lean_lines.append(f"  let ttl := ttl - {st[1]}")
+        elif st[0] == "wrapping_sub":
+            lean_lines.append(f"  let ttl := (ttl + 256 - {st[1]} % 256) % 256")
+        else:
+            op = {"==": "==", "<=": "≤", "<": "<"}[st[1]]
+            cond = f"ttl == {st[2]}" if st[1] == "==" else f"decide (ttl {op} {st[2]})"
+            lean_lines.append(f"  if {cond} then .ok none else")
+    lean_lines.append("  .ok (some ttl)")
+    after = flat[zone_end:]
+    loops = len(re.findall(r"\b(for|while|loop)\b", flat))
+    sends = flat.count("send_pci(")
+    spawns = flat.count("tokio::spawn(")
+    # structural facts, tolerant of local renames
+    by_dest = bool(re.search(r"\.get_recipient\(\s*" + V + r"\.destination\s*\)", after))
+    gw_or_dest = bool(re.search(r"match (\w+)\.0 \{ Some\((\w+)\) => \2, None => " + V + r"\.destination,? \}", after)) \
+        or bool(re.search(r"\w+\.0\.unwrap_or\(\s*" + V + r"\.destination\s*\)", after))
+    mres = re.findall(r"\.resolve\(\s*\w+\s*,\s*(\w+)\s*,", after)
+    mopen = re.findall(r"\.open\(\s*(\w+)\s*\)", after)
+    msend = re.findall(r"\.send_pci\(\s*\w+\s*,\s*Some\(\s*\w+\s*\)\s*,\s*TypeId::of::<Ipv4>\(\)\s*\)", after)
+    mloc = re.findall(r"local: self\.local_ips\[(\w+) as usize\]", after)
+    arp_on_slot = len(mres) == 1 and len(mopen) == 1 and len(msend) == 1 and len(mloc) == 1 and mres[0] == mopen[0] == mloc[0]
+    start = re.sub(r"\s+", " ", fn_body(impl, impl.index("StartError>", re.search(r"async\s+fn\s+start\s*\(", impl).end())))
+    wild = [pn for pn, name in ((6, "TCP"), (17, "UDP"))
+            if re.search(r"ipv4\.listen\( self\.id\(\), Ipv4Address::CURRENT_NETWORK, machine(\.clone\(\))?, ProtocolNumber::%s, \)" % name, start)]
+    arp_listens = "for ip in self.local_ips.iter() { arp.listen(*ip); }" in start
+    # Ipv4 header constants and default TTL
+    prs = strip_comments(read(os.path.join(CORE, "protocols", "ipv4", "ipv4_parsing.rs")))
+    mw = re.search(r"const BASE_WORDS: u8 = (\d+);", prs)
+    mo = re.search(r"const BASE_OCTETS: u16 = BASE_WORDS as u16 \* (\d+);", prs)
+    mf = re.search(r"const FRAGMENT_OFFSET_MASK: u16 = (0x[0-9a-fA-F_]+|\d+);", prs)
+    nb = re.search(r"pub fn new\( source: Ipv4Address, destination: Ipv4Address, protocol: u8, payload_length: u16, \) -> Self \{ Self \{(.*?)\} \}", re.sub(r"\s+", " ", prs))
+    mt = nb and re.search(r"time_to_live: (\d+),", nb.group(1))
+    ser = "payload_length: self.total_length - BASE_OCTETS," in re.sub(r"\s+", " ", prs)
+    if not (mw and mo and mf and mt):
+        raise ExtractError("ipv4_parsing.rs: BASE_WORDS / BASE_OCTETS / FRAGMENT_OFFSET_MASK / default time_to_live not found")
+    arp = strip_comments(read(os.path.join(CORE, "protocols", "arp.rs")))
+    mr = re.search(r"pub const RESEND_TRIES: u32 = (\d+);", arp)
+    md = re.search(r"pub const RESEND_DELAY: Duration = Duration::from_millis\((\d+)\);", arp)
+    if not (mr and md):
+        raise ExtractError("arp.rs: RESEND_TRIES / RESEND_DELAY not found")
+    b = lambda x: "true" if x else "false"
+    lines = ["-- GENERATED from /repo sources by tools/extract.py on every check; do not edit",
+             "namespace Elvis.Gen",
+             "/-- TTL handling of `ArpRouter::demux`, statement by statement (dev profile: checked `-=`):",
+             "    `.error` = panic, `.ok none` = `return Ok(())` (datagram dropped), `.ok (some t)` = forwarded with TTL t.",
+             "    Source statements: " + "; ".join(" ".join(str(x) for x in st) for st in stmts) + " -/",
+             "def routerTtlKernel (ttl : Nat) : Except String (Option Nat) :="] + lean_lines + ["",
+             f"def routerDemuxSendSites : Nat := {sends}",
+             f"def routerDemuxSpawns : Nat := {spawns}",
+             f"def routerDemuxLoops : Nat := {loops}",
+             f"def routerLooksUpDestination : Bool := {b(by_dest)}",
+             f"def routerNextHopGatewayOrDestination : Bool := {b(gw_or_dest)}",
+             f"def routerArpOnOutgoingSlotOneSend : Bool := {b(arp_on_slot)}",
+             f"def routerWildcardListens : List Nat := [{', '.join(str(x) for x in wild)}]",
+             f"def routerArpListensLocalIps : Bool := {b(arp_listens)}",
+             f"def ipv4DefaultTtl : Nat := {mt.group(1)}",
+             f"def ipv4BaseOctets : Nat := {int(mw.group(1)) * int(mo.group(1))}",
+             f"def ipv4FragmentOffsetMask : Nat := {int(mf.group(1).replace('_', ''), 0)}",
+             f"def ipv4SerializeSubtractsBaseOctets : Bool := {b(ser)}",
+             f"def arpResendTries : Nat := {mr.group(1)}",
+             f"def arpResendDelayMs : Nat := {md.group(1)}",
+             "end Elvis.Gen", ""]
+    write_if_changed("RouterCert.lean", "\n".join(lines))
+
+
 def main():
     check_message_immutability()
     gen_consts()
@@ -1265,6 +1385,7 @@ def main():
     extract_tcb_consts()
     extract_modcmp_kernels()
     gen_ndl_cert()
+    gen_router_cert()
 
 
 if __name__ == "__main__":
